@@ -184,6 +184,11 @@ def literal_value(lit):
     return Fraction(t.rstrip(".") if t.endswith(".") else t)
 
 
+# set by a caller that compiles for the float back-end only: positional scale
+# literals with more than 18 fractional digits (the decimal back-end rejects them)
+LONG_LITERALS = False
+
+
 def random_units(rnd, n, with_ref, taken_idents, allow_prefix=True, safe=False):
     units = []
     syms = set()
@@ -227,6 +232,27 @@ def random_units(rnd, n, with_ref, taken_idents, allow_prefix=True, safe=False):
         elif r < 0.17:
             # an alias of the reference unit
             units[rnd.choice(non_ref)]["scale"] = rnd.choice(["1", "1.0", "1e0"])
+        elif r < 0.29 and LONG_LITERALS:
+            # a positional literal with 19 to 24 fractional digits
+            # (small values: the digits beyond the 18th are significant ones)
+            k = rnd.randint(19, 24)
+            z = rnd.randint(5, 12)
+            digits = "0" * z + str(rnd.randint(10**(k - z - 1), 10**(k - z) - 1))
+            lead = rnd.choice(["0", "0", "0", "3"])
+            units[rnd.choice(non_ref)]["scale"] = "%s.%s" % (lead, digits)
+    if not with_ref and len(units) >= 2 and rnd.random() < 0.2:
+        # two identifiers that differ in letter case only (a camel-case
+        # compound and the plain word): still distinct names, variants and
+        # constants; the one that sorts later is written first
+        for _ in range(20):
+            a, b = rnd.choice(SYLLABLES), rnd.choice(SYLLABLES)
+            plain, camel = (a + b).capitalize(), a.capitalize() + b.capitalize()
+            keys = {plain.lower()}
+            if plain != camel and not any(u["id"].replace("_", "").lower() in keys for u in units) and plain.lower() not in taken_idents:
+                taken_idents.add(plain.lower())
+                i, j = sorted(rnd.sample(range(len(units)), 2))
+                units[i]["id"], units[j]["id"] = plain, camel
+                break
     return units
 
 
